@@ -682,12 +682,15 @@ fn set_pred(holds: bool, doc: &Buf) {
     }
 }
 
-/// C17 predicate path: `select` appends exactly the boolean scalar document (true iff the predicate kept the root)
-/// and exactly one offset -- one harness per mode (a symbolic mode makes CBMC explore all four builders at once)
-fn body_predicate_select(mode: Mode) {
+/// C17 predicate path: whatever the mode (symbolic), `select` appends exactly the boolean scalar document (true iff
+/// the predicate kept the root) and exactly one offset.  One harness per outcome: a symbolic outcome gives the position
+/// queue a symbolic length and CBMC then unrolls every builder loop to the bound (> 10 min).
+fn body_predicate_select(holds: bool) {
     let doc = lay_object(&[key1()], &[sc_w0().it]);
-    let holds: bool = kani::any();
     set_pred(holds, &doc);
+    let m: u8 = kani::any();
+    kani::assume(m < 4);
+    let mode = if m == 0 { Mode::All } else if m == 1 { Mode::First } else if m == 2 { Mode::Array } else { Mode::Mixed };
     let o = run_select(pred_path(), mode, doc.as_slice());
     let b = It { word: if holds { T_TRUE } else { T_FALSE }, pay: [0u8; PAYMAX], plen: 0 };
     check_items(&o, &[b]);
@@ -696,29 +699,15 @@ fn body_predicate_select(mode: Mode) {
 #[kani::proof]
 #[kani::unwind(6)]
 #[kani::stub(Selector::find_positions, fp_stub)]
-fn ks_predicate_select_first() {
-    body_predicate_select(Mode::First);
+fn ks_predicate_select_true() {
+    body_predicate_select(true);
 }
 
 #[kani::proof]
 #[kani::unwind(6)]
 #[kani::stub(Selector::find_positions, fp_stub)]
-fn ks_predicate_select_all() {
-    body_predicate_select(Mode::All);
-}
-
-#[kani::proof]
-#[kani::unwind(6)]
-#[kani::stub(Selector::find_positions, fp_stub)]
-fn ks_predicate_select_array() {
-    body_predicate_select(Mode::Array);
-}
-
-#[kani::proof]
-#[kani::unwind(6)]
-#[kani::stub(Selector::find_positions, fp_stub)]
-fn ks_predicate_select_mixed() {
-    body_predicate_select(Mode::Mixed);
+fn ks_predicate_select_false() {
+    body_predicate_select(false);
 }
 
 /// C17 `predicate_match` returns the predicate's boolean; `exists` on a predicate path is true; `predicate_match` on a
